@@ -16,7 +16,14 @@ BG = "magpylib/_src/obj_classes/class_BaseGeo.py"
 # (property, name, file, old, new, expect)   expect: "red" | "equivalent" (must stay green)
 FD = "magpylib/_src/fields/"
 FWB = FD + "field_wrap_BH.py"
+OC = "magpylib/_src/obj_classes/"
 MUTANTS = [
+    ("C07", "triangle-table-regression", OC + "class_misc_Triangle.py", '{"polarization": 2, "vertices": 3}', '{"polarization": 2, "vertices": 2}', "red"),
+    ("C07", "cuboid-table-dimension-1", OC + "class_magnet_Cuboid.py", '{"polarization": 2, "dimension": 2}', '{"polarization": 2, "dimension": 1}', "red"),
+    ("C07", "source-getH-field-letter", OC + "class_BaseExcitations.py", '            field="H",\n            sumup=False,', '            field="B",\n            sumup=False,', "red"),
+    ("C07", "sensor-getJ-drops-in_out", OC + "class_Sensor.py", '            field="J",\n            sumup=sumup,\n            squeeze=squeeze,\n            pixel_agg=pixel_agg,\n            output=output,\n            in_out=in_out,', '            field="J",\n            sumup=sumup,\n            squeeze=squeeze,\n            pixel_agg=pixel_agg,\n            output=output,\n            in_out="auto",', "red"),
+    ("C07", "collection-role-swap", OC + "class_Collection.py", "            sources, sensors = inputs, self\n", "            sources, sensors = self, inputs\n", "red"),
+    ("C07", "dict-tiling-squeeze-misuse", FD + "field_wrap_BH.py", "            kwargs[key] = np.tile(val, (vec_len, *[1] * (expected_dim - 1)))", "            kwargs[key] = np.tile(val, (vec_len, *[1] * (expected_dim - 1)))[::-1]", "equivalent"),
     ("C08", "reset-forgets-orientation", FWB, "            obj._position = obj._position[:m0]\n            obj._orientation = obj._orientation[:m0]\n", "            obj._position = obj._position[:m0]\n", "red"),
     ("C08", "reset-not-in-finally", FWB, "    finally:\n        # reset tiled objects", "    except MagpylibBadUserInput:\n        raise\n    else:\n        # reset tiled objects", "red"),
     ("C08", "reset-wrong-length", FWB, "            obj._position = obj._position[:m0]\n", "            obj._position = obj._position[: m0 + 1]\n", "red"),
